@@ -1,0 +1,30 @@
+//! Virtual clock offset for DiscoveryDB lease bookkeeping (hook H4): leases from sub-second to
+//! minutes are exercised in microseconds.  offset() = thread-local part (single-threaded rigs) +
+//! global part (whole participants, whose discovery thread is not the caller's thread).
+
+use std::{
+  cell::Cell,
+  sync::atomic::{AtomicU64, Ordering},
+  time::Duration,
+};
+
+thread_local! {
+  static LOCAL_NS: Cell<u64> = const { Cell::new(0) };
+}
+static GLOBAL_NS: AtomicU64 = AtomicU64::new(0);
+
+pub fn offset() -> Duration {
+  Duration::from_nanos(LOCAL_NS.with(Cell::get) + GLOBAL_NS.load(Ordering::SeqCst))
+}
+
+pub fn advance_local(d: Duration) {
+  LOCAL_NS.with(|c| c.set(c.get() + d.as_nanos() as u64));
+}
+
+pub fn reset_local() {
+  LOCAL_NS.with(|c| c.set(0));
+}
+
+pub fn advance_global(d: Duration) {
+  GLOBAL_NS.fetch_add(d.as_nanos() as u64, Ordering::SeqCst);
+}
